@@ -48,7 +48,7 @@ PROBES = ["image_moved_between_redraws", "image_disappeared", "bare_non_composit
           "kitty_style_by_forced_support", "grid_row_redivided",
           "kitty_widget_spec_with_z_index_field", "redraw_interrupted",
           "images_rerendered_in_place", "stray_image_before_start",
-          "redraw_while_resize_pending"]
+          "redraw_while_resize_pending", "same_canvas_drawn_again_after_interrupt"]
 COMPONENTS = {
     "real": ["UrwidImageScreen (draw_screen, clear, clear_images, _start, _stop, "
              "_ti_clear_images)", "UrwidImage / UrwidImageCanvas", "KittyImage / ITerm2Image / "
@@ -487,7 +487,8 @@ def run(ch, ctx, fault=None):
                     layout = {"kind": "pile", "items": []}
                     continue
                 out.drain()
-                int_at = ch.int("int_at", 1, 6)
+                int_at = ch.int("int_at", 1, 6) if ch.bool("int_early", 0.4) else \
+                    ch.int("int_at_late", 7, 60)
                 seen_w = [0]
                 real_write = out.write
 
@@ -514,6 +515,14 @@ def run(ch, ctx, fault=None):
                                                else "(completed)")
                 last_geo[0] = None
                 force_new[0] = True
+                if hit and ch.bool("same_canvas_again", 0.5):
+                    # the main loop survives and draws again: nothing was invalidated, so it is
+                    # the very same canvas object
+                    screen.draw_screen((size[0], size[1]), canvas)
+                    out.drain()
+                    check(not vt.synced, "synchronized_update_left_open", {}, "draw")
+                    desc += "; the same canvas drawn again"
+                    ctx.probe("same_canvas_drawn_again_after_interrupt")
             elif op == "swap_toggle":
                 # the application corrects the reported window dimensions (win-size swap): the
                 # cell size the library works with changes at an unchanged terminal size, the
